@@ -798,14 +798,23 @@ def transcript(driver, start=None):
     out = []
     req_by_op = {k: (i, m) for (k, i, m) in driver.requests}
 
+    ordinal = {}
+    seen_ops = {}
+
     def label(k):
         lab = driver.battery_labels.get(k)
         if lab:
             return lab
+        if k in seen_ops:
+            return seen_ops[k]
         if 0 <= k < len(driver.ops) and driver.ops[k]["k"] == "msg":
             m = driver.ops[k]["m"].get("method", "?")
-            return m if m == "initialize" else f"{m}#{k}"
-        return f"?#{k}"
+        else:
+            m = "?"
+        # ordinal among the non-battery operations of that method that produced output
+        ordinal[m] = ordinal.get(m, 0) + 1
+        seen_ops[k] = m if m == "initialize" else f"{m}#{ordinal[m]}"
+        return seen_ops[k]
 
     for o in driver.out:
         k = o["op"]
